@@ -467,6 +467,24 @@ def run_check(pid, tier, seed):
 
     n = prop.quick_n if tier == 'quick' else prop.thorough_n
     corr, summary, mon_fails = explore(n, seed, tier == 'thorough')
+    vanished = 0
+    if corr['mismatches'] and prop.confirm_slow and b.go_ok:
+        # a disagreement on a concurrent history is only kept when it persists with every grace period stretched
+        keep = []
+        for mm in corr['mismatches']:
+            if not mm.get('input') or 'model' not in mm:
+                keep.append(mm)
+                continue
+            tmp = os.path.join(run_dir, 'confirm.in')
+            open(tmp, 'w').write('%s: %s\n' % (mm['entry'], ' '.join(map(str, mm['input']))))
+            rc_, out_, _ = sh([os.path.join(BUILD, 'harness'), prop.harness, '-replay', tmp, '-slow', '12'], timeout=300, env=GOENV)
+            again = out_.strip().split('\n')[-1].strip() if out_.strip() else ''
+            if rc_ == 0 and again == mm['model']:
+                vanished += 1
+            else:
+                mm['impl_rerun_slow'] = again
+                keep.append(mm)
+        corr['mismatches'] = keep
     v1, undecided = classify(corr, mon_fails)
     violations += v1
     if undecided:
@@ -519,6 +537,7 @@ def run_check(pid, tier, seed):
         'known_findings_reproduced': sorted(known_hits.keys()),
         'broken': broken,
         'failing_input_search_cases': searched,
+        'timing_disagreements_vanished_on_slow_rerun': vanished,
     }
     cov.update(extra_cov)
     write_evidence(prop, tier, seed, cov, prop.assumptions, time.time() - t0, len(violations) + (1 if (broken and not violations) else 0))
